@@ -54,6 +54,8 @@ func execNetworkSimplex(g *graph.DGraph, params graph.Params) {
 		vbalance(g)
 	case 2:
 		p.hbalance(g)
+		// horizontal balancing may shift nodes above the current lowest layer
+		normalize(g)
 	}
 }
 
